@@ -1,6 +1,8 @@
 package main
 
 import (
+	"strconv"
+	"time"
 	"encoding/json"
 	"fmt"
 	"go/ast"
@@ -33,6 +35,17 @@ type mutant struct {
 	SwapEq    bool              `json:"swap_eq"`    // mirror every comparison with simple operands (a < b becomes b > a)
 	RenameAll bool              `json:"rename_all"` // rename every local variable, parameter and named result of the function(s) named in Funcs
 	Funcs     []string          `json:"funcs"`      // function / method names (rename_all)
+}
+
+// selfValidationBudget: the mutants, seeds and benign variants are informational; on an overloaded machine they stop
+// being launched once the run has used this much wall time (default 1500 s, VERIF_SELFTEST_BUDGET), and the rest is
+// recorded as skipped. The verdict never depends on them.
+func overBudget(c *Ctx) bool {
+	b := 1500 * time.Second
+	if v, err := strconv.Atoi(os.Getenv("VERIF_SELFTEST_BUDGET")); err == nil && v > 0 {
+		b = time.Duration(v) * time.Second
+	}
+	return time.Since(c.start) > b
 }
 
 type mutantResult struct {
@@ -108,6 +121,10 @@ func runMutants(c *Ctx) {
 			defer wg.Done()
 			sem <- struct{}{}
 			defer func() { <-sem }()
+			if overBudget(c) {
+				results[i] = mutantResult{ID: m.ID, Expect: m.Expect, Outcome: "skipped", Detail: "self-validation time budget used up"}
+				return
+			}
 			results[i] = runOneMutant(c, self, tmp, m)
 		}(i, m)
 	}
@@ -223,6 +240,11 @@ func runBenign(c *Ctx) {
 			sem <- struct{}{}
 			defer func() { <-sem }()
 			res := mutantResult{ID: m.ID}
+			if overBudget(c) {
+				res.Outcome, res.Detail = "skipped", "self-validation time budget used up"
+				results[i] = res
+				return
+			}
 			abs := filepath.Join(c.Repo, m.File)
 			src, err := os.ReadFile(abs)
 			if err != nil {
@@ -307,6 +329,10 @@ func runSeeds(c *Ctx) {
 			defer func() { <-sem }()
 			res := mutantResult{ID: filepath.Base(d)}
 			defer func() { results[i] = res }()
+			if overBudget(c) {
+				res.Outcome, res.Detail = "skipped", "self-validation time budget used up"
+				return
+			}
 			diff, err := os.ReadFile(filepath.Join(d, "patch.diff"))
 			if err != nil {
 				res.Outcome, res.Detail = "skipped", "no patch.diff"
